@@ -30,7 +30,7 @@ CLAIMS = {
  'C04': {
   'not_decided': 'that a concrete document leaves the stack at depth 1.',
   'note': 'Trusted: CPython ast, sa/flow.py, sa/absint.py; the pairing table of push/pop functions is frozen from the reference tree with one reason per entry (private helpers and functions reached through dispatch tables are folded into their callers; a function that reaches the stack only through computed callees is interpreted with a recording context instead).',
-  'technique': 'who-may-call table + structural counter dataflow (push/pop pairing), copy-on-write and lookup chains on a small frame heap',
+  'technique': 'who-may-call table + structural counter dataflow (push/pop pairing) with interpretation on a recording context where the structure does not show the pairing (context managers, helpers, computed callees), copy-on-write and lookup chains on a small frame heap',
  },
  'C05': {
   'not_decided': 'the values bound for concrete invocations beyond the scanner/token-kind tables and number samples of the rules.',
@@ -45,7 +45,7 @@ CLAIMS = {
  'C07': {
   'not_decided': 'word order and multiplicity for concrete documents.',
   'note': 'Trusted: CPython ast, sa/absint.py. Two known findings (substitutions inside math arrays and ensuremath).',
-  'technique': 'per-iteration path enumeration with event counting (token linearity), level tables by constant propagation, paragraph regrouping and row deletion on DOM heaps, method-resolution tables',
+  'technique': 'per-iteration path enumeration with event counting (token linearity, generator helpers and their consuming loops included), level tables by constant propagation, paragraph regrouping, normalisation with substitutions and row deletion on DOM heaps',
  },
  'C08': {
   'not_decided': 'the numbers of a whole generated document.',
@@ -65,7 +65,7 @@ CLAIMS = {
  'C11': {
   'not_decided': 'token-for-token equality of the reconstructed math source with the formula for every formula (composition over arbitrary trees).',
   'note': 'Trusted: CPython ast, sa/absint.py, sa/flow.py. Two known findings (substitutions inside math arrays and ensuremath change the math source). The list of LaTeX text boxes is a frozen table confirmed on the reference tree.',
-  'technique': 'abstract interpretation of the verbatim and \\verb scanners on scripted character streams and of the source properties on DOM heaps; stack-discipline dataflow; method-resolution tables',
+  'technique': 'abstract interpretation of the verbatim and \\verb scanners on scripted character streams, of the source properties and of normalize() on DOM heaps, and of the box parsers on a scripted math-shift tracker',
  },
  'C12': {
   'not_decided': 'the decoded text of whole rendered pages; regex-level reasoning about the image-attribute post-processing.',
@@ -75,7 +75,7 @@ CLAIMS = {
  'C13': {
   'not_decided': 'the partition of body text over files for every split level and template.',
   'note': 'Trusted: CPython ast, sa/absint.py, sa/flow.py. The uniqueness clause reuses the C15 generator rules.',
-  'technique': 'abstract interpretation of the render recursion, the file-name property, cacheFilenames, the split-level detection and the footnote owner on small heaps with a scripted renderer, file system and name generator; forbidden-call scan',
+  'technique': 'abstract interpretation of the render recursion, the file-name property, cacheFilenames, the split-level detection and the footnote owner on small heaps with a scripted renderer, file system and name generator; Renderer.render interpreted end to end as an event list (mix-in, names, rendering, saving of labels, removal); forbidden-call scan',
  },
  'C14': {
   'not_decided': 'that every link of a concrete output lands on an existing target.',
@@ -95,7 +95,7 @@ CLAIMS = {
  'C17': {
   'not_decided': 'equality of trees and files for concrete document sequences.',
   'note': 'Trusted: CPython ast, sa/effects.py resolves class references through the static model (also through locals and loop variables bound to classes, and rows of constant tables). 11 known findings (register values, List.depth, MathShift.inEnv, article/natbib class patching, defcitealias aliases).',
-  'technique': 'whole-package effect/ownership scan with allow-table keyed by the state cell written, path-sensitive balance, abstract interpretation of the paired writes (class attributes followed by value)',
+  'technique': 'whole-package effect/ownership scan with allow-table keyed by the state cell written, path-sensitive balance, abstract interpretation of the paired writes (class attributes followed by value; Renderer.render, the box parsers and the $ handler on scripted trackers)',
  },
  'C18': {
   'not_decided': 'collation order of arbitrary key multisets (delegated to pyuca / str.lower) and balance of the column split.',
@@ -110,6 +110,6 @@ CLAIMS = {
  'C20': {
   'not_decided': 'each individual truncation point or bit flip of a saved file (subsumed by the envelope rule) and equality of concrete restored label sets.',
   'note': 'Trusted: CPython ast, sa/absint.py with precise exception edges; relies on `except Exception` catching every error an unpickler can raise.',
-  'technique': 'abstract interpretation of persist / restore / the xr reader against a scripted file system (each failure kind injected), attribute round trip on heap objects, key-origin dataflow',
+  'technique': 'abstract interpretation of persist / restore / the xr reader against a scripted file system (each failure kind injected), attribute round trip on heap objects; Renderer.render and Compile.parse interpreted for the file name, the renderer key and the moment of saving',
  },
 }
